@@ -117,6 +117,7 @@ func registerIntrinsics(m *Machine) {
 		m.allocBudget = a[0].(*Term)
 		return nil
 	}
+	I["vfAllocCheck"] = func(m *Machine, fr *frame, a []Value, _ *ssa.CallCommon) Value { return nil }
 	I["vfFreeze"] = func(m *Machine, fr *frame, a []Value, _ *ssa.CallCommon) Value {
 		m.freeze(a[0], m.concStr(a[1], "tag"))
 		return nil
